@@ -1,7 +1,9 @@
 (* C15 - matchers change only what they target (JSON side; simple key/index paths). *)
+From Coq Require Import String.
 From Coq Require Import List NArith Bool Lia.
 Import ListNotations.
 From Snaps Require Import Base.Bytes Base.Lines Model.Json Model.JsonSpec Proofs.JsonP Proofs.MaskP.
+From Snaps Require Import Model.Matchers Proofs.MatchersP.
 
 (* the value at the path becomes the placeholder ... *)
 Theorem C15_target_replaced : forall (p : list pstep) (v x v' : jv),
@@ -37,3 +39,44 @@ Theorem C15_settable_iff_exists : forall (p : list pstep) (v x : jv), set v p x 
 Proof. exact set_some_iff_get. Qed.
 Print Assumptions C15_result_wellformed.
 Print Assumptions C15_settable_iff_exists.
+
+(* ---------- whole matcher lists: match.Any / match.Type / match.Custom applied by applyJSONMatchers (Model/Matchers.v) ---------- *)
+
+(* every path disjoint from all matcher paths keeps its value - whatever the matchers do, also when some of them fail *)
+Theorem C15_list_others_untouched : forall ms v q,
+  (forall p, In p (all_paths ms) -> pdisj p q = true) ->
+  get (fst (apply_matchers ms v)) q = get v q.
+Proof. exact matchers_others_untouched. Qed.
+(* an existing path under Any becomes exactly the placeholder, with no error, and resolves as before *)
+Theorem C15_list_any_target_replaced : forall p comps x e v,
+  path_comps p = Some comps -> get v (steps_of v comps) <> None ->
+  exists v', apply_matchers [MAny [p] x e] v = (v', []) /\ set v (steps_of v comps) x = Some v' /\
+             get v' (steps_of v comps) = Some x /\ steps_of v' comps = steps_of v comps.
+Proof. exact C15_any_target_replaced. Qed.
+(* the document keeps its top-level shape (same keys in the same order / same length) *)
+Theorem C15_list_top_shape : forall ms v, same_top_shape v (fst (apply_matchers ms v)).
+Proof. exact C15_top_shape. Qed.
+(* LEFT TO RIGHT within a matcher: the paths are applied one after the other on the running document ... *)
+Theorem C15_paths_left_to_right : forall p1 ps x e v,
+  apply_matcher (MAny (p1 :: ps) x e) v =
+  (let (v1, e1) := apply_matcher (MAny [p1] x e) v in
+   let (v2, e2) := apply_matcher (MAny ps x e) v1 in (v2, (e1 ++ e2)%list)).
+Proof. exact matcher_paths_left_to_right_any. Qed.
+(* ... so an ancestor listed before its descendant makes the descendant missing (scalar placeholder) *)
+Theorem C15_ancestor_then_descendant : forall x e v p1 p2 c1 c2,
+  path_comps p1 = Some c1 -> path_comps p2 = Some (c1 ++ c2)%list -> c2 <> [] -> is_scalar x = true ->
+  get v (steps_of v c1) <> None ->
+  exists v1, set v (steps_of v c1) x = Some v1 /\ get v1 (steps_of v1 (c1 ++ c2)%list) = None /\
+    apply_matcher (MAny [p1; p2] x e) v =
+    (v1, if e then [{| me_matcher := 0; me_path := p2; me_reason := RMissing |}] else []).
+Proof. exact ancestor_then_descendant. Qed.
+Print Assumptions C15_list_others_untouched.
+Print Assumptions C15_list_any_target_replaced.
+Print Assumptions C15_list_top_shape.
+Print Assumptions C15_paths_left_to_right.
+Print Assumptions C15_ancestor_then_descendant.
+
+Example C15_matcher_example :
+  let '(v', es) := apply_matchers [MAny [B "user.name"%string; B "missing"%string] ANY true; MAny [B "time"%string] ANY true] exv in
+  es = [err 0 "missing"%string RMissing] /\ get v' [k_user; k_name] = Some (JStr (B "n"%string)) /\ get v' [k_time] = Some ANY.
+Proof. exact ex_discard_rule. Qed.
